@@ -110,5 +110,26 @@ pub fn run(e: &'static Engine) {
         }));
     }
     e.par(jobs);
+    // generated: random cells, and steered matrices (whole rows/columns of one value with isolated exceptions at
+    // word-size boundaries, run-length patterns, uniform rectangles), so that a renderer that packs, chunks or
+    // run-length-encodes rows is driven through its uniform-chunk paths
+    let total: u32 = e.tier.pick(9600, 160000);
+    let shards = e.tier.pick(32u32, 96);
+    let mut jobs: Vec<Job> = Vec::new();
+    for _ in 0..shards {
+        jobs.push(Box::new(move |jc: &mut JobCtx| {
+            let strat = crate::gens::steered_case(1, 40, true);
+            jc.run_prop(2 << 20, &strat, total / shards * 3 / 4, |(c, _)| c.to_json(), |(c, _), o| {
+                o.label("part:steered");
+                check(c, o)
+            });
+            let strat = crate::gens::any_case();
+            jc.run_prop(3 << 20, &strat, total / shards / 4, |(c, _, _)| c.to_json(), |(c, _, _), o| {
+                o.label("part:generated");
+                check(c, o)
+            });
+        }));
+    }
+    e.par(jobs);
     e.set_exhaustive(true, "all 40 symbol sizes (x 4 levels); payloads and masks are sampled");
 }
